@@ -133,10 +133,8 @@ def handle : Handler
   | "c07.tree_pipeline", [t] => some <| Option.getD (do
       -- get_dendrogram, height shift, reorder_dendrogram: what both Louvain hierarchies do with their tree
       let t ← tree? t
-      let r : Except PyErr (Dendro Ht) := do
-        let d ← getDendrogram t
-        let d ← shiftHeights d
-        reorderDendrogram (d.map fun (r : Row Int) => ({ i := r.i, j := r.j, h := Ht.fin (r.h : Rat), s := r.s } : Row Ht))
+      let r : Except PyErr (Dendro Ht) :=
+        (treePipeline t).map fun d => d.map fun (r : Row Int) => ({ i := r.i, j := r.j, h := Ht.fin (r.h : Rat), s := r.s } : Row Ht)
       match r with
       | .error e => some (showErr e)
       | .ok d => some ("ok " ++ showDendro d)) "bad-args"
